@@ -402,6 +402,25 @@ static void on_quiescence(void) {
       vs_violation("stranded", "all kernel threads idle, nothing pending, but: %s", buf);
     }
   }
+  // anonymous (crowd) fibers: every fiber the program created has finished and been reclaimed by now - they are all detached
+  // and the system is idle for good.  The kernel threads' own idle fibers are not program fibers.
+  if (g_all_done()) {
+    int left = 0;
+    fiber_t* example = 0;
+    for (int u = 0; u < g_nrec; u++) {
+      grec_t* r = &gtab[g_used[u]];
+      if (r->idx >= 0 || r->is_thread_fiber || r->state == GS_DESTROYED) continue;
+      int is_idle_fiber = 0;
+      for (int t = 0; t < VS_MAX_THREADS; t++)
+        if (g_mgr[t] && (g_mgr[t]->maintenance_fiber == r->f || g_mgr[t]->thread_fiber == r->f)) is_idle_fiber = 1;
+      if (is_idle_fiber || r->switches == 0) continue;  // (a fiber that never ran is an idle fiber created for later)
+      left++;
+      example = r->f;
+    }
+    if (left)
+      vs_violation("stranded", "all kernel threads idle, every program fiber finished, but %d further fiber(s) the program started (a crowd) never finished, e.g. %p in library "
+                   "state %d", left, (void*)example, (int)example->state);
+  }
   vs_rt_exit();
   if (H->final_check) H->final_check();
   vs_finish_ok();
@@ -593,7 +612,10 @@ static void derive_cfg(vs_config_t* c, uint64_t base_seed, int i, uint64_t base_
   }
   int sel = (int)((h >> 8) % 8);
   // thread-level harnesses have short threads: there any scheduling point of the thread is a candidate stall point
-  int any = H->entry != 0 && ((h >> 33) & 1);
+  // (runtime harnesses: one stall in four is placed at an arbitrary scheduling point of the thread instead of an access to the
+  // watched object - windows that open right *after* the last access to it, e.g. between publishing a wait node and the end of the
+  // context switch, are only reachable that way)
+  int any = H->entry != 0 ? (int)((h >> 33) & 1) : (((h >> 33) & 3) == 0);
   if (sel >= 6 && (base_watch >= 4 || any)) {
     // stall: random walk, plus one thread held at one of its own accesses (to the watched object, or any)
     int cand[VS_MAX_THREADS], nc = 0;
